@@ -38,9 +38,10 @@ static PseudoTcpWriteResult cb_write (PseudoTcpSocket *s, const gchar *buf, guin
 static void summary (int w)
 {
   PseudoTcpSocketPrivate *p = S[w]->priv;
-  P (" [%d %u %u %u %u %u %u %u %u %u %u %u %u %zu %zu %u %d%d%d %u]", (int) p->state, p->snd_una, p->snd_nxt, p->rcv_nxt, p->snd_wnd, p->rcv_wnd,
+  P (" [%d %u %u %u %u %u %u %u %u %u %u %u %u %zu %zu %u %d%d%d %u %u %zu]", (int) p->state, p->snd_una, p->snd_nxt, p->rcv_nxt, p->snd_wnd, p->rcv_wnd,
      p->cwnd, p->ssthresh, p->rx_rto, p->rto_base, p->t_ack, (unsigned) p->dup_acks, p->mss, p->sbuf.data_length, p->rbuf.data_length,
-     g_queue_get_length (&p->slist), (int) p->support_fin_ack, (int) p->shutdown, (int) p->shutdown_reads, (unsigned) p->swnd_scale);
+     g_queue_get_length (&p->slist), (int) p->support_fin_ack, (int) p->shutdown, (int) p->shutdown_reads, (unsigned) p->swnd_scale,
+     p->rbuf_len, p->rbuf.buffer_length);      /* receive-buffer bookkeeping and the real capacity of the FIFO */
   if (getenv ("PTCP_DEBUG")) { P ("{"); for (GList *i = p->slist.head; i; i = i->next) { SSegment *g = i->data; P ("%u+%u/x%u/f%u ", g->seq, g->len, g->xmit, g->flags); } P ("}"); }
 }
 
